@@ -1,17 +1,19 @@
 #!/bin/bash
-# Re-run every registered check (quick tier) against each seeded change kept under /verif/seeded,
-# six scratch worktrees at a time. C02-F is only visible to the thorough tier (DBGASSERT1).
+# Re-run every registered check (quick tier) against each seeded change kept under /verif/seeded, six scratch
+# worktrees at a time; a change that no quick check reports (debug-build-only defects: C02-F, C09-J) is re-run
+# against the thorough tier.
 cd /verif
-mapfile -t L < <(ls seeded | grep -E "^C[0-9]+-[A-J]$")
+mapfile -t L < <(ls seeded | grep -E "^C[0-9]+-[A-Z]$")
 n=${#L[@]}
 out=$(mktemp -d)
 for w in 0 1 2 3 4 5; do
   ( for ((i=w; i<n; i+=6)); do SE_TARGET=/tmp/se-target-$w python3 tools/seed_eval.py /verif/seeded/${L[$i]} --recheck 2>&1 | grep -v conda | tail -1; done > $out/w$w.log 2>&1 ) &
 done
 wait
-python3 tools/seed_eval.py /verif/seeded/C02-F --recheck --tier=thorough 2>&1 | tail -1 > $out/c02f.log
-cat $out/w*.log | grep "fired={}" | grep -v "^C02-F" && echo "UNDETECTED (above)"
-cat $out/c02f.log
+for s in $(cat $out/w*.log | grep "fired={}" | cut -d: -f1); do
+  python3 tools/seed_eval.py /verif/seeded/$s --recheck --tier=thorough 2>&1 | tail -1 | sed 's/$/  [thorough tier]/'
+done | tee $out/thorough.log
+grep "fired={}" $out/thorough.log && echo "UNDETECTED (above)"
 cat $out/w*.log | wc -l
 rm -rf $out /tmp/se-target-[0-5]
 python3 tools/seed_report.py | tail -1
